@@ -72,6 +72,8 @@ func (c *SpecCtx) lookupType(name string) types.Type {
 		return types.Typ[types.Uint8]
 	case "any":
 		return types.NewInterfaceType(nil, nil)
+	case "error":
+		return types.Universe.Lookup("error").Type()
 	}
 	if strings.HasPrefix(name, "*") {
 		return types.NewPointer(c.lookupType(name[1:]))
@@ -128,6 +130,19 @@ func (c *SpecCtx) lookupType(name string) types.Type {
 	}
 	c.fail("unknown type %q in package %s", name, pkg.Path())
 	return nil
+}
+
+// evalGhost: the value of a ghost initialiser / update expression, with `nil` taken at the ghost's sort.
+func (c *SpecCtx) evalGhost(e *SExpr, srt *Sort) *Term {
+	if isNilExpr(e) {
+		switch {
+		case srt == SIface:
+			return c.X.E.IfaceNil()
+		case srt == SInt:
+			return c.X.E.TS.IntLit(0)
+		}
+	}
+	return c.eval(e).T
 }
 
 func isNilExpr(e *SExpr) bool {
@@ -317,6 +332,12 @@ func (c *SpecCtx) ident(name string) *Val {
 				}
 			}
 		}
+		// locals whose address escapes (boxed cells): the name denotes the content
+		for v, r := range c.Fr.Regs {
+			if a, ok := v.(*ssa.Alloc); ok && a.Heap && a.Comment == name && r.T != nil && r.A == nil {
+				return c.derefVal(&Val{T: r.T, GT: a.Type()})
+			}
+		}
 		// free variables of a closure: captured cells
 		for fv, v := range c.Fr.Free {
 			if fv.Name() == name {
@@ -329,7 +350,13 @@ func (c *SpecCtx) ident(name string) *Val {
 	}
 	// function-local ghost
 	if srt, ok := X.ghostTypes[name]; ok {
-		return &Val{T: X.heap(c.state(), "GH|"+name, srt), GT: sortGoType(srt)}
+		gt := sortGoType(srt)
+		if T, ok := X.ghostGoTypes[name]; ok && srt == SInt {
+			if _, isPtr := T.Underlying().(*types.Pointer); isPtr {
+				gt = T
+			}
+		}
+		return &Val{T: X.heap(c.state(), "GH|"+name, srt), GT: gt}
 	}
 	if c.Pkg != nil {
 		if v := c.pkgObject(c.Pkg, name); v != nil {
@@ -738,6 +765,8 @@ func (c *SpecCtx) call(e *SExpr) *Val {
 		return &Val{T: X.heap(c.state(), "GM|maxalloc", SInt), GT: intT}
 	case "maxmake":
 		return &Val{T: X.heap(c.state(), "GM|maxmake", SInt), GT: intT}
+	case "panicked": // this path went through a call marked `maypanic` that panicked (and was recovered)
+		return &Val{T: X.heap(c.state(), "GH|~panicked", SBool), GT: boolT}
 	case "min", "max":
 		a, b := c.eval(e.Args[0]), c.eval(e.Args[1])
 		if e.Name == "min" {
